@@ -16,7 +16,7 @@ func init() {
 	register(&Property{
 		ID:          "C15",
 		Engines:     []string{"cfg", "decide"},
-		Explanation: "WebSocket size limits, structural part: in nextFrame the too-large test on len(message)+declared length dominates frame acceptance and its true edge returns ErrMessageTooLarge (O1); in readAll every extension of the inflated result is followed by a limit test on the new length before the buffer can be returned, and growth happens only behind isMessageTooLarge(len+1)==false (O2); WriteMessage rejects control payloads above 125 before any writeFrame (O3); the append to the input cache is unreachable without the read-limit test (O4); the too-large and control-too-big errors pass WriteClose(1009) before Parse returns them (O5); isMessageTooLarge(n) is exactly limit>0 && n>limit (O6).",
+		Explanation: "WebSocket size limits, structural part: in nextFrame the too-large test on len(message)+declared length dominates frame acceptance and its true edge returns ErrMessageTooLarge (O1); in readAll every extension of the inflated result is followed by a limit test on the new length before the buffer can be returned, and growth happens only behind isMessageTooLarge(len+1)==false (O2); WriteMessage rejects control payloads above 125 before any writeFrame (O3); the append to the input cache is unreachable without the read-limit test (O4); the too-large and control-too-big errors pass WriteClose(1009) before Parse returns them (O5); isMessageTooLarge(n) is exactly limit>0 && n>limit (O6). Wrapped errors keep their identity (O9); a fresh commonFields carries the limit (O10).",
 		NotCovered:  "peak allocator bytes, the actual inflated sizes, boundary arithmetic (limit-1/limit/limit+1) as values",
 		Run:         runC15,
 	})
